@@ -308,6 +308,13 @@ func (ms *Modules) FindModuleByNamespace(ns string) (*Module, error) {
 		if m.Namespace.Name == ns {
 			switch {
 			case m == found:
+			case found != nil && found.Name == m.Name:
+				// Two revisions of one module share its namespace: the
+				// name denotes the latest (the one filed under the bare
+				// name), and so does the namespace.
+				if latest, ok := ms.Modules[m.Name]; ok && latest.Name == m.Name && latest.Namespace.Name == ns {
+					found = latest
+				}
 			case found != nil:
 				return nil, fmt.Errorf("namespace %s matches two or more modules (%s, %s)",
 					ns, found.Name, m.Name)
